@@ -559,6 +559,22 @@ def run_inproc(ctx, root):
     okh, bouts, errs = lib.run_vh_parallel(BIN, reqs, workers=min(lib.NCPU, 8))
     if not okh:
         ctx.broken.append("harness c12 died: " + errs[:500])
+    # a context that did not come back in time: the machine may just be busy — ask again, with a long fixed limit
+    late = [i for i, b in enumerate(bouts) if b.strip() == "TIMEOUT"]
+    if late:
+        ctx.notes.append("%d contexts timed out at first; retried with a 45 s limit" % len(late))
+        retry = late[:48]
+        ok2, outs2, _ = lib.run_vh_parallel(BIN, [reqs[i] for i in retry], workers=min(lib.NCPU, 8),
+                                            env={"VH_C12_TIMEOUT": "45"})
+        for i, o in zip(retry, outs2):
+            bouts[i] = o
+        if len(late) > len(retry):
+            still = sum(1 for i in retry if bouts[i].strip() == "TIMEOUT")
+            if still == 0:      # all of the sample came back: the rest were late for the same reason
+                ok3, outs3, _ = lib.run_vh_parallel(BIN, [reqs[i] for i in late[len(retry):]], workers=min(lib.NCPU, 8),
+                                                    env={"VH_C12_TIMEOUT": "45"})
+                for i, o in zip(late[len(retry):], outs3):
+                    bouts[i] = o
     mouts = lib.run_drv_parallel([drv_request(root, c, par, sub) for _, c, par, sub in cases], workers=4)
     nviol = 0
     for (kind, c, par, sub), b, m in zip(cases, bouts, mouts):
@@ -756,8 +772,11 @@ def canon_dump(text, tdir):
     return res + sorted(cur)
 
 
+E2E_TIMEOUT = [30]
+
+
 def e2e_run(which, root, script, tdir):
-    return lib.run_shell(which, script, mode="file", cwd=root, timeout=30)
+    return lib.run_shell(which, script, mode="file", cwd=root, timeout=E2E_TIMEOUT[0])
 
 
 def e2e_one(job):
@@ -880,6 +899,15 @@ def end_to_end(ctx, root):
     njobs = len(jobs)
     ojobs = [(r, "bash", c, m, md) for (r, _, c, m, md) in jobs[::ctx.size(4, 6)]]
     res = lib.pmap(e2e_one, jobs + ojobs, workers=8)
+    late = [i for i, r in enumerate(res) if r[0] == "timeout"]
+    if late:        # a busy machine, or a real hang: ask again with a long limit, a few at a time
+        ctx.notes.append("%d end-to-end scripts timed out at first; retried with a 150 s limit" % len(late))
+        E2E_TIMEOUT[0] = 150
+        try:
+            for i, r in zip(late[:24], lib.pmap(e2e_one, [(jobs + ojobs)[i] for i in late[:24]], workers=4)):
+                res[i] = r
+        finally:
+            E2E_TIMEOUT[0] = 30
     nviol = 0
     for job, (st, b, a) in zip(jobs + ojobs, res):
         _, which, c, muts, mode = job
